@@ -40,7 +40,7 @@ if rc: print("patch does not apply to /repo:", out); sys.exit(1)
 results = {}
 try:
     for cid in [pid] + extra:
-        for tier in ["quick", "thorough"]:
+        for tier in (["quick"] if os.environ.get("SEEDED_QUICK_ONLY") else ["quick", "thorough"]):
             t = time.time()
             r = subprocess.run(['/verif/check', cid, tier], capture_output=True, text=True, env=dict(os.environ, VERIF_NO_FUZZ='1') if os.environ.get('SEEDED_NO_FUZZ') else None)
             sigs = [l.strip() for l in r.stdout.splitlines() if 'signature=' in l]
